@@ -185,6 +185,11 @@ func Program(r *run.Rng, o Opts) []rec.Op {
 				l = r.Range(1, 3)
 			}
 			for ; l > 0; l-- {
+				if r.Chance(1, 16) && len(ops) > 0 && ops[len(ops)-1].K == k {
+					// the very same operation again (a zero-length segment when absolute)
+					ops = append(ops, ops[len(ops)-1])
+					continue
+				}
 				ops = append(ops, DrawOp(r, k, &o))
 			}
 		}
